@@ -54,6 +54,8 @@ pub struct Workload {
     pub open_end: usize,
     pub log: Vec<String>,
     pub uring: bool,
+    /// what the journal slot/generation discipline monitor found in the trace, if anything
+    pub trace_problem: Option<String>,
 }
 
 static TICK: AtomicU64 = AtomicU64::new(1);
@@ -108,6 +110,22 @@ fn client_ops(store: &FeoxStore, mon: &FileMon, cfg: &Cfg, rng: &mut Rng, thread
         let inv = (inv_pos, inv_tick);
         let roll = rng.below(100);
         if roll < flush_pm {
+            // one flush in three is aimed at a background drain: wait (up to 150 ms) until the periodic flusher
+            // has taken this thread's queued entries off their shards, then call flush() while that batch is
+            // probably still on its way to the device - the acknowledgement has to cover it all the same
+            let mut inv_pos = inv_pos;
+            let mut inv_tick = inv_tick;
+            if rng.chance(1, 3) && store.verif_pending().is_some_and(|p| p.shard_queued.iter().sum::<usize>() > 0) {
+                let t0 = std::time::Instant::now();
+                while t0.elapsed() < std::time::Duration::from_millis(150) {
+                    if store.verif_pending().is_some_and(|p| p.shard_queued.iter().sum::<usize>() == 0) {
+                        break;
+                    }
+                    std::thread::yield_now();
+                }
+                inv_pos = mon.len();
+                inv_tick = tick();
+            }
             let r = store.flush();
             let ret = mon.len();
             c.log.push(format!("[{inv_pos}..{ret}] flush() -> {:?}", r.as_ref().map_err(|e| storeutil::err_name(e))));
@@ -298,7 +316,8 @@ pub fn run_workload(seed: u64, index: u64, dir: &str, tier_ops: usize) -> Result
     hub().unwatch(&mon);
     feoxdb::verif::set_thread_now_ns(0);
     let _ = std::fs::remove_file(&path);
-    Ok(Workload { cfg, seed, index, base, events, hist, acks, open_end, log, uring })
+    let trace_problem = crashimg::journal_discipline(&events, &[]).err();
+    Ok(Workload { cfg, seed, index, base, events, hist, acks, open_end, log, uring, trace_problem })
 }
 
 /// Second epoch (C02/C03 across restarts): recover a crash image of `w1` with the real store,
@@ -394,7 +413,8 @@ pub fn run_epoch2(w1: &Workload, image: Vec<u8>, seed: u64, salt: u64, dir: &str
     hub().unwatch(&mon);
     feoxdb::verif::set_thread_now_ns(0);
     let _ = std::fs::remove_file(&path);
-    Ok(Workload { cfg, seed, index: w1.index * 1000 + salt, base: image, events, hist: hist2, acks, open_end, log, uring })
+    let trace_problem = crashimg::journal_discipline(&events, &[]).err();
+    Ok(Workload { cfg, seed, index: w1.index * 1000 + salt, base: image, events, hist: hist2, acks, open_end, log, uring, trace_problem })
 }
 
 // ------------------------------------------------------------------ judging
@@ -767,7 +787,13 @@ pub fn run(args: &Args) -> Report {
         });
         for r in results {
             match r {
-                Ok(w) => wls.push(Arc::new(w)),
+                Ok(w) => {
+                    report.count("traces_checked_against_the_journal_discipline", 1);
+                    if let Some(p) = &w.trace_problem {
+                        report.violation("crash:journal-discipline", format!("workload {} on {}: {p}", w.index, w.cfg.label()), json!({"engine": "crash", "seed": w.seed, "workload": w.index, "config": w.cfg.label(), "client_log": w.log}));
+                    }
+                    wls.push(Arc::new(w))
+                }
                 Err(e) => report.inconclusive.push(format!("workload failed to run: {e}")),
             }
         }
@@ -1021,6 +1047,11 @@ fn idem_check(w: &Workload, recipe: &Recipe, image: &[u8], path: &str, local: &m
         Err(_) => return Ok(()), // reopen failures are C03's business
     };
     let c1 = logical(&first.dump);
+    // recovery's own journal cycles (replay, one per chunk of repairs) obey the same slot / generation discipline
+    if let Err(p) = crashimg::journal_discipline(&first.recovery_events, &[]) {
+        return Err(("recovery:journal-discipline".into(), format!("during recovery's repair writes: {p}")));
+    }
+    local.count("recovery_traces_checked_against_the_journal_discipline", 1);
     let rwrites = first.recovery_events.iter().filter(|e| matches!(e, Ev::W { .. })).count();
     if rwrites > 0 {
         local.nontrivial.insert(fnv_mix(fnv(image), 0x1de));
